@@ -202,6 +202,20 @@ CHECKS = {
              "module.",
         note="Modules that declare the same name twice in a scope, or use an Eigen type as base class, are not judged.",
         design="6/C10"),
+    "C18": dict(
+        category="model_checking",
+        technique="TLA+ MxConvert (arrays over opaque element tokens: Wrap/Unwrap, column-major maps, error table; handle "
+                  "protocol as a machine) model-checked; every model case and handle behaviour executed by a C++ driver "
+                  "against the real matlab.h; boundary / random concrete values through wrap-then-unwrap",
+        text="TLC checks RoundTrip and ErrorTable for every type x shape <= 3x3 (incl. 0xn, mx0, 0x0) x source class and "
+             "explores every wrap/unwrap/release/drop sequence of <= 5 steps over two objects (KeptAlive). The driver, "
+             "compiled from /repo/matlab.h with a mock MEX API and stand-in Vector/Matrix, executes all 1232 unwrap "
+             "cases, all wrap cases and all handle behaviours and must report the model's outcomes, shapes, element "
+             "positions, object identity and use counts; ~1600 (quick) concrete values incl. INT_MIN, SIZE_MAX, "
+             "2^53+1, denormals, infinities, NaN payloads, all 256 char values come back bit for bit.",
+        note="Values are opaque tokens in the model: fidelity over full numeric ranges is sampled, not enumerated (the "
+             "weakest fit of the technique among the claimed properties). Trusted: the MEX mock. Strings: ASCII, no NUL.",
+        design="6/C18"),
 }
 
 NOT_YET = "not yet built in this session; planned per DESIGN.md section 6"
